@@ -69,12 +69,16 @@ class Core:
         if tag == 0x15:  # key provisioning: set user key / write key store carry data, read key store returns data
             op = params[0] if params else 0
             return {1: "out", 5: "out", 6: "in"}.get(op, "cmd")
+        if tag == 0x13:  # generate key blob: first the key travels to the device (data-phase flag), then the blob is read
+            return "out" if flags & 1 else "in"
         return "cmd"
 
     def length(self, tag, shape, params):
         if shape == "in":
             if tag == 0x15:
                 return len(self.keystore)
+            if tag == 0x13:
+                return params[1] if params[1] <= 512 else 0
             return params[1] if params[0] + params[1] <= len(self.mem) else 0
         if shape == "out":
             if tag == 0x08:
@@ -108,6 +112,9 @@ class Core:
             if tag == 0x15:
                 blob = self.keystore
                 out.append(("resp", 0xB5, 0, [ln], False))
+            elif tag == 0x13:
+                blob = self.keyblob = bytes((self.got[i % len(self.got)] ^ (i * 7 + 0x5A)) & 0xFF for i in range(ln)) if self.got else bytes(ln)
+                out.append(("resp", 0xB3, 0, [ln], False))
             else:
                 addr = params[0]
                 blob = bytes(self.mem[addr:addr + ln])
@@ -262,6 +269,12 @@ class Twin:
         for e in emissions:
             if e[0] == "resp":
                 _, rtag, status, values, final = e
+                if final and self.final_error is not None:
+                    status, self.final_error = self.final_error, None
+                    payload = struct.pack("<4B", rtag, 0, 0, 1 + len(values)) + struct.pack(f"<{1 + len(values)}I", status, *values)
+                    self.emit("resp", payload=payload, status=status, devStatus=status, final=final)
+                    self.trace[-1]["fault"] = "err" if self.trace[-1]["fault"] == "none" else self.trace[-1]["fault"]
+                    continue
                 payload = struct.pack("<4B", rtag, 0, 0, 1 + len(values)) + struct.pack(f"<{1 + len(values)}I", status, *values)
                 self.emit("resp", payload=payload, status=status, devStatus=status, final=final)
             else:
@@ -317,6 +330,9 @@ class Twin:
         self.ncmd += 1
         if self.dev_error and self.dev_error[0] == self.ncmd:
             status = self.dev_error[1]
+            # the device may also report the failure only AFTER the data phase, in the final response (a write that fails while programming, a read that ends early)
+            if len(self.dev_error) > 2 and self.dev_error[2] == "final" and self.core.shape(tag, flags, params) in ("in", "out"):
+                self.final_error, status = status, 0
         in_data_phase = self.core.dataout is not None
         shape, ln, out = self.core.on_cmd(tag, flags, params, status)
         self.trace.append({"ev": "h2d", "kind": "cmd", "tag": tag, "crcOk": ok, "shape": shape, "len": ln,
@@ -345,6 +361,7 @@ class Twin:
             self.send(self.core.on_data(pl))
 
     expect_cmd_data = False
+    final_error = None
 
 
 # ------------------------------------------------------------------ operations
@@ -378,6 +395,8 @@ OPS = {
     "write_memory": ("out", 0x04, ["addr", "data", "mem"]), "receive_sb_file": ("out", 0x08, ["data"]), "fuse_program": ("out", 0x14, ["addr", "data", "mem"]),
     "kp_set_user_key": ("out", 0x15, ["small", "data"]), "kp_write_key_store": ("out", 0x15, ["data"]),
     "load_image": ("raw", 0, ["data"]),
+    # two exchanges in one call: the key goes out (data phase), the blob comes back (data phase); length = key length, second length = blob size
+    "generate_key_blob": ("outin", 0x13, ["data", "small4", "count"]),
     # property report of the device, plain and after the host interpreted a property for a family with its own property table (history independence)
     "get_property_list": ("value", 0x07, []), "get_property_list_after_family_parse": ("value", 0x07, []),
 }
@@ -430,6 +449,10 @@ def make_args(op, length, salt, r):
             vals.append(r.choice([0, 1, 2, 3, 7, 0x40, 0xFF]))
         elif k == "four":
             vals.append(4)
+        elif k == "small4":
+            vals.append(r.choice([0, 1, 2, 3]))
+        elif k == "count":
+            vals.append(r.choice([72, 72, 88, 104, 1, 64, 65, 200]))
         elif k == "key8":
             vals.append(bytes(r.randrange(256) for _ in range(8)))
         elif k == "data48":
@@ -454,8 +477,8 @@ def do_call(mb, twin, op, length, salt, r=None):
     blobs = [x for x in A if isinstance(x, bytes)]
     data = blobs[0] if blobs else b""
     inline = bool(blobs) and not any(k == "data" for k in kinds)            # short data inside the command packet
-    call = {"ev": "call", "op": op, "shape": shape, "tag": tag, "len": length if shape in ("in", "out", "raw") else 0, "mps": twin.mps,
-            "args": [W(x) for x in ints], "dl": W(len(data)), "db": list(data) if inline else []}
+    call = {"ev": "call", "op": op, "shape": shape, "tag": tag, "len": length if shape in ("in", "out", "raw", "outin") else 0, "mps": twin.mps,
+            "args": [W(x) for x in ints], "dl": W(len(data)), "db": list(data) if inline else [], "len2": ints[1] if shape == "outin" else 0}
     if op == "kp_read_key_store":
         call["len"] = len(core.keystore)
     res = {"ev": "result", "kind": "ret", "val": "fail", "status": 0, "reads": 0, "documented": True, "dataExact": False, "dataLen": 0,
@@ -483,7 +506,9 @@ def do_call(mb, twin, op, length, salt, r=None):
             r_ = mb.reset(timeout=0, reopen=True)
         else:
             r_ = getattr(mb, op)(*A)
-        if shape == "in":
+        if shape == "outin":
+            want = getattr(core, "keyblob", b"")
+        if shape in ("in", "outin"):
             if r_ is None:
                 res["val"] = "none"
             else:
@@ -508,7 +533,7 @@ def do_call(mb, twin, op, length, salt, r=None):
                 res["valuesExact"] = r_ is True and core.once.get(A[0] & 0xFFFFFF, 0) & A[1] == A[1]
         else:
             res["val"] = "ok" if r_ is True else "fail"
-        if shape == "out":
+        if shape in ("out", "outin"):
             addr = A[0] if op in ("write_memory", "fuse_program") else 0x8000
             res["devGotExact"] = bytes(core.mem[addr:addr + length]) == data and bytes(core.got) == data
             res["devBytes"] = len(core.got)
@@ -692,7 +717,7 @@ def run_history(job):
             if fault:
                 twin.fault = (twin.nframe + fault[0],) + tuple(fault[1:])
             if dev_error:
-                twin.dev_error = (twin.ncmd + dev_error[0], dev_error[1])
+                twin.dev_error = (twin.ncmd + dev_error[0], dev_error[1]) + tuple(dev_error[2:])
         twin.trace = []
         twin.expect_cmd_data = False
         call, res = do_call(mb, twin, op, length, i, rng(PROP, "args", jid, i))
@@ -706,7 +731,7 @@ def run_history(job):
 
 def norm(e):
     d = {"ev": e["ev"], "kind": str(e.get("kind", "none")), "op": e.get("op", "none"), "shape": e.get("shape", "none"), "tag": int(e.get("tag", 0)),
-         "len": int(e.get("len", 0)), "mps": int(e.get("mps", 0)), "chunks": int(e.get("chunks", 0)), "n": int(e.get("n", 0)),
+         "len": int(e.get("len", 0)), "len2": int(e.get("len2", 0)), "mps": int(e.get("mps", 0)), "chunks": int(e.get("chunks", 0)), "n": int(e.get("n", 0)),
          "chunk": int(e.get("chunk", 0)), "crcOk": bool(e.get("crcOk", True)), "fault": e.get("fault", "none"), "status": int(e.get("status", 0)),
          "devStatus": int(e.get("devStatus", 0)), "final": bool(e.get("final", False)), "val": e.get("val", "none"), "reads": int(e.get("reads", 0)),
          "documented": bool(e.get("documented", True)), "dataExact": bool(e.get("dataExact", False)), "dataLen": int(e.get("dataLen", 0)),
@@ -815,11 +840,36 @@ def run(tier):
                 if kind == "err":
                     jid += 1
                     jobs.append((f"f-{jid}", transport, mps, [(op, ln)], None, (1, r.choice([10101, 10200, 1])), True))
+                    if shape in ("in", "out"):          # the same failure reported in the final response, after the data phase
+                        jid += 1
+                        jobs.append((f"f-{jid}", transport, mps, [(op, ln)], None, (1, r.choice([10101, 10200, 1, 105]), "final"), True))
                     continue
                 positions = [(0, 0)] if kind not in ("flip", "trunc") else ([(p, r.randrange(8)) for p in ([0, 1, 2, 3, 4, 5, 6, 7, 9] if tier == "quick" else range(0, 24))] if kind == "flip" else [(p, 0) for p in (0, 1, 3, 5, 7)])
                 for pos in positions:
                     jid += 1
                     jobs.append((f"f-{jid}", transport, mps, [(op, ln)], (at_t, kind, pos), None, True))
+    # generate_key_blob: two exchanges (data out, then data in) in one call - fault-free and with a fault at every frame of the device-to-host stream
+    kinds = sorted({c[2] for c in classes} - {"err"})
+    for transport in ("serial", "hid"):
+        for mps in mps_menu:
+            for ln in (16, 32, mps, mps + 1):
+                for preset in (False, True):
+                    jid += 1
+                    jobs.append((f"nf-{jid}", transport, mps, [("generate_key_blob", ln)], None, None, preset))
+            jid += 1
+            jobs.append((f"nf-{jid}", transport, mps, [("generate_key_blob", 16), ("read_memory", mps + 1), ("generate_key_blob", 32)], None, None, True))
+            jid += 1
+            for k in (1, 2):
+                for where in ((), ("final",)):
+                    jid += 1
+                    jobs.append((f"f-{jid}", transport, mps, [("generate_key_blob", r.choice([24, mps + 1]))], None, (k, r.choice([10101, 10200, 1])) + where, True))
+            for at in (range(0, 14) if tier == "thorough" else sorted(r.sample(range(0, 12), 6))):
+                for kind in kinds:
+                    if transport == "hid" and kind in ("nak",):
+                        continue
+                    for pos in ([(0, 0)] if kind not in ("flip", "trunc") else [(p, r.randrange(8)) for p in ((0, 2, 5, 9) if tier == "quick" else range(0, 16))]):
+                        jid += 1
+                        jobs.append((f"f-{jid}", transport, mps, [("generate_key_blob", r.choice([16, mps + 1]))], (at, kind, pos), None, True))
     # benign not-ready bytes, and faults in the second call of a history
     for _ in range(20 if tier == "quick" else 1500):
         mps = r.choice(mps_menu)
@@ -900,7 +950,7 @@ def run(tier):
     v.assumptions += ["USB-HID has no integrity check: payload corruption on HID is not a listed fault (only report id / length / missing / truncated report, error status)",
                       "faults are finite; the device stub honours the DeviceBase contract (>= 1 byte or a time-out exception)",
                       "a call is unbounded if it needs more than 3000 device reads",
-                      "generate_key_blob, trust-provisioning, EdgeLock, WPC and DSC-HSM commands are not driven; read_memory is driven in its single-command form "
+                      "trust-provisioning, EdgeLock, WPC and DSC-HSM commands are not driven; read_memory is driven in its single-command form "
                       "(the per-packet USB work-around needs a real UsbDevice)",
                       "Reset: a device that falls silent after the command (response lost or cut, device gone before its ACK) counts as restarted - SPSDK's documented "
                       "tolerance; an explicit NAK does not",
